@@ -355,6 +355,14 @@ theorem restore_mapping_all_found {κ : Type} [DecidableEq κ] (h : κ → Nat) 
     (hi : Hash.insertAll h (Hash.empty e) ks = some t) : ∀ k ∈ ks, Hash.find h t k = true :=
   Hash.restore_mapping_all_found h e ks t hi
 
+/-- the same starting from the table `allocate_mapping(n)` makes, for every `n`: the restored table is well-formed and
+every pair is found (this is the function the model driver runs against the real table of every restored integer-key
+mapping: `tbl` lines — size, `unfilled`, count, every chain in order) -/
+theorem restore_mapping_all_found_alloc {κ : Type} [DecidableEq κ] (h : κ → Nat) (n : Nat) (ks : List κ)
+    (t : Hash.Tbl κ) (hi : Hash.insertAll h (Hash.allocate n) ks = some t) :
+    Hash.WF h t ∧ ∀ k ∈ ks, Hash.find h t k = true :=
+  Hash.restore_mapping_all_found_alloc h n ks t hi
+
 /-- the statements of restore_mapping / growMap / node_find_in_mapping that Hash.lean mirrors still read that way
 (REGENERATED from the source text on every run) -/
 theorem hash_sites_as_modelled : NV.Gen.C16.hashSitesAsModelled = true := by decide
